@@ -93,7 +93,7 @@ REASONS = {}
 
 m = {
     "version": 1,
-    "setup_cmd": "cd /verif/factgen && CARGO_NET_OFFLINE=true cargo build --offline 2>&1 | tail -3 && cd /verif && python3 -m spec.selftest",
+    "setup_cmd": "cd /verif/factgen && CARGO_NET_OFFLINE=true cargo build --offline 2>&1 | tail -3 && cd /verif && python3 -m spec.selftest && python3 -m engine.bvtest 300 11",
     "hooks": {
         "guard": "cryptocorrosion_verif",
         "enable": "none needed: the checks are static analyses of /repo's working tree (rustc_private fact extractor under `cargo +nightly check`); no instrumentation is compiled into the repository",
